@@ -297,6 +297,12 @@ def applicable (l : List LChain) (d : Nat) : List Chain := applicableIn (listene
     `d = virtualInboundPort` (T-diff: the token `bh:15006.0` is in every real virtualInbound listener). -/
 def virtualInboundPort : Nat := 15006
 
+/-- Ports the sidecar itself listens on: the outbound / inbound capture ports, the HBONE port, the agent's status and
+    metrics ports.  iptables never redirects connections to them to virtualInbound (15006 is the listener itself),
+    so a filter chain that a port-level entry on such a port produces enforces nothing; the inbound theorems make no
+    claim for them. -/
+def proxyOwnPorts : List Nat := [15001, 15006, 15008, 15020, 15021, 15090]
+
 /-- `conflictWithReservedListener` for a service target of a sidecar (bind = wildcard): the static listeners
     (status port 15021, Prometheus port 15090) and the virtual listeners (15001, 15006). -/
 def reservedTarget (t : Nat) : Bool := t == 15001 || t == 15006 || t == 15021 || t == 15090
